@@ -93,6 +93,7 @@ class UnitResult:
         self.cmds = []
         self.log_tail = ''
         self.loop_obls = 0
+        self.dropped_callees = []
 
     def n_obl(self):
         return len([c for c in self.checks if not c['reach']])
@@ -121,8 +122,9 @@ def parse_cbmc_json(out):
     return results, msgs, status
 
 
-def build_unit(u, scr, workdir, tier, trace=False):
+def build_unit(u, scr, workdir, tier, trace=False, common_replace=()):
     """Compile, instrument and run one unit. Returns UnitResult."""
+    common_replace = common_replace or u.get('_common', ())
     r = UnitResult(u)
     name = u['name']
     gb = os.path.join(workdir, name + '.gb')
@@ -150,12 +152,28 @@ def build_unit(u, scr, workdir, tier, trace=False):
             (err or out)[-1500:]
         return r
     uses_contracts = bool(u.get('enforce') or u.get('replace')
-                          or u.get('loop_contracts'))
+                          or u.get('loop_contracts') or common_replace)
     if uses_contracts:
+        # Callees named for replacement that are no longer in the program
+        # (the code under verification stopped calling them, or never did in
+        # this unit) are dropped: DFCC refuses unknown symbols, and the
+        # obligations about a vanished callee then fail by themselves.
+        rc2, lo, le, s0 = sh(['goto-instrument', '--list-goto-functions', gb],
+                             120)
+        r.secs['dfcc'] += s0
+        present = set(m.group(1) for m in re.finditer(
+            r'^(\S+) /\* (?!contract::)', lo, re.M))
+        replace = list(u.get('replace', [])) + \
+            [f for f in common_replace if f not in u.get('replace', [])
+             and f not in u.get('enforce', [])
+             and f not in u.get('keep_real', [])]
+        r.dropped_callees = [f for f in u.get('replace', [])
+                             if f not in present]
+        replace = [f for f in replace if f in present]
         cmd = ['goto-instrument', '--dfcc', entry]
         for f in u.get('enforce', []):
             cmd += ['--enforce-contract', f]
-        for f in u.get('replace', []):
+        for f in replace:
             cmd += ['--replace-call-with-contract', f]
         if u.get('loop_contracts'):
             cmd += ['--apply-loop-contracts']
@@ -383,6 +401,8 @@ def run_property(prop, tier, only=None, keep=False, jobs=16, seed=0,
              if tier in u.get('tiers', ['quick', 'thorough'])]
     if only:
         units = [u for u in units if u['name'] in only]
+    for u in units:
+        u['_common'] = table.get('common_replace', [])
     scr = make_scratch()
     workdir = os.path.join(scr, 'work')
     os.makedirs(workdir)
@@ -411,10 +431,28 @@ def run_property(prop, tier, only=None, keep=False, jobs=16, seed=0,
             if aset:
                 root, bad = trees[aset]
                 if bad:
-                    r = UnitResult(u)
-                    r.reason = 'loop annotation failed: %s' % bad
+                    # The loop the annotation is anchored on has changed.
+                    # Fall back to bounded refutation on the plain tree: a
+                    # failing obligation found within 3 iterations is a real
+                    # counterexample; finding none proves nothing (exit 2).
+                    u2 = dict(u)
+                    u2['loop_contracts'] = False
+                    u2['annot'] = []
+                    u2['unwind'] = 3
+                    u2['flags'] = list(u.get('flags', [])) + \
+                        ['--no-unwinding-assertions']
+                    r = build_unit(u2, scr, workdir, tier)
+                    r.unit = u
+                    if r.status != 'FAIL':
+                        r.status = 'UNDECIDED'
+                        r.reason = ('loop annotation failed (%s); bounded '
+                                    'fallback (3 iterations) found no failing '
+                                    'obligation' % bad)
+                    else:
+                        r.reason = 'loop annotation failed; bounded fallback'
                     return r
-            return build_unit(u, root, workdir, tier)
+            return build_unit(u, root, workdir, tier,
+                              common_replace=table.get('common_replace', ()))
 
         order = list(units)
         if seed:
@@ -668,6 +706,7 @@ def do_replay(prop, path):
     with open(os.path.join(VERIF, 'units', prop + '.json')) as f:
         table = json.load(f)
     u = next(x for x in table['units'] if x['name'] == doc['unit'])
+    u['_common'] = table.get('common_replace', [])
     scr = make_scratch()
     try:
         workdir = os.path.join(scr, 'work')
